@@ -6,7 +6,8 @@ IsF32(x) == x.bad = ""
 Val(x) == [z |-> x.z, e |-> x.e, m |-> x.m]
 
 Clauses(r) ==
-  LET A == Range(r.a)  B == Range(r.b)  D == Dist32(A, B) IN
+  \* op = "iv": the two sets are given as unions of intervals (sets too large to ship element by element)
+  LET D == IF r.op = "iv" THEN Dist32Iv(r.a, r.b) ELSE Dist32(Range(r.a), Range(r.b)) IN
   << <<"no-error", r.ok>>,
      <<"distances-are-float32-values", r.ok => IsF32(r.dab) /\ IsF32(r.dba)>>,
      <<"distance-correctly-rounded", r.ok => Val(r.dab) = D>>,
